@@ -39,31 +39,33 @@ func consumeSingleTURNFrame(b []byte) (int, error) {
 		return 0, errIncompleteTURNFrame
 	}
 
-	var datagramSize uint16
+	// int, not uint16: a declared length close to 0xFFFF plus header and padding must
+	// not wrap around to a tiny (or zero) frame size.
+	var datagramSize int
 	switch {
 	// The channel number is checked first: the first two bits of a STUN message are
 	// zero, so it can never look like a valid channel number, whereas the payload of
 	// a ChannelData frame may well carry the STUN magic cookie at offset 4.
 	case ChannelNumber(binary.BigEndian.Uint16(b[0:2])).Valid():
-		datagramSize = binary.BigEndian.Uint16(b[channelDataNumberSize:channelDataHeaderSize])
+		datagramSize = int(binary.BigEndian.Uint16(b[channelDataNumberSize:channelDataHeaderSize]))
 		if paddingOverflow := (datagramSize + channelDataPadding) % channelDataPadding; paddingOverflow != 0 {
 			datagramSize = (datagramSize + channelDataPadding) - paddingOverflow
 		}
 
 		datagramSize += channelDataHeaderSize
 	case stun.IsMessage(b):
-		datagramSize = binary.BigEndian.Uint16(b[2:4]) + stunHeaderSize
+		datagramSize = int(binary.BigEndian.Uint16(b[2:4])) + stunHeaderSize
 	case len(b) < stunHeaderSize:
 		return 0, errIncompleteTURNFrame
 	default:
 		return 0, errInvalidTURNFrame
 	}
 
-	if len(b) < int(datagramSize) {
+	if len(b) < datagramSize {
 		return 0, errIncompleteTURNFrame
 	}
 
-	return int(datagramSize), nil
+	return datagramSize, nil
 }
 
 // ReadFrom implements ReadFrom from net.PacketConn.
